@@ -80,6 +80,15 @@ class _Subst(ast.NodeTransformer):
     def visit_Lambda(self, n: ast.Lambda) -> ast.AST:
         return n
 
+    def visit_Subscript(self, n: ast.Subscript) -> ast.AST:
+        n = self.generic_visit(n)   # type: ignore[assignment]
+        # (a, b, c)[1] -> b : arises from `x, y, z = helper()` once helper's returned tuple is inlined
+        v, sl = n.value, n.slice
+        if isinstance(n.ctx, ast.Load) and isinstance(v, (ast.Tuple, ast.List)) and not any(isinstance(e, ast.Starred) for e in v.elts) \
+                and isinstance(sl, ast.Constant) and isinstance(sl.value, int) and not isinstance(sl.value, bool) and -len(v.elts) <= sl.value < len(v.elts):
+            return v.elts[sl.value]
+        return n
+
     def visit_ListComp(self, n: ast.ListComp) -> ast.AST:
         return self._comp(n)
 
@@ -457,3 +466,31 @@ def fpaths(cfg: Any, **kw: Any) -> Iterator[Path]:
     for p in cfg.paths(**kw):
         if feasible(p):
             yield p
+
+
+def allfacts(path: Path, upto: Optional[int] = None) -> Dict[str, bool]:
+    """{atom text: polarity} for the tests passed on the path (before step `upto`), under BOTH spellings: as written and
+    with locals inlined (so `idle = self.f(); if idle > t` also yields the fact `self.f() > t`).  Later tests win."""
+    from .cfg import atom_key
+    cache = path.__dict__.setdefault('_allfacts', {})
+    if upto in cache:
+        return cache[upto]
+    sym = path.__dict__.get('_sym')
+    if sym is None:
+        sym = Sym(path)
+        path.__dict__['_sym'] = sym
+    out: Dict[str, bool] = {}
+    for idx, (nid, lab) in enumerate(path.steps):
+        if upto is not None and idx >= upto:
+            break
+        n = path.cfg.nodes[nid]
+        if n.kind == 'test' and lab in (True, False):
+            k, pol = atom_key(n.ast, lab)  # type: ignore[arg-type]
+            out[k] = pol
+            try:
+                k2, pol2 = atom_key(sym.value(n.ast, idx), lab)  # type: ignore[arg-type]
+                out[k2] = pol2
+            except Exception:
+                pass
+    cache[upto] = out
+    return out
